@@ -351,6 +351,48 @@ def w_lonely(kind: int, shape: int, sp: int) -> str:
     return _lonely(rt.sel(kind, 6), rt.sel(shape, 4), rt.sel(sp, 3))
 
 
+def _put_during_empty(k, kind, days, tdk):
+    """the other way round: `trash-empty DAYS`, busy purging old entries, is preempted after k system calls by a COMPLETE
+    trash-put into the same trash directory and then finishes.  The fresh entry is younger than DAYS: the put must
+    still end fully trashed.  (The reference pre-state is the world as trash-empty alone leaves it.)"""
+    from vf import sched
+    from harness import common as K
+    with rt.untraced():
+        base = '/v/d' if tdk == 0 else '/h/w'
+        td = '/v/.Trash-1000' if tdk == 0 else '/h/.local/share/Trash'
+        pv = (lambda p: p[3:]) if tdk == 0 else (lambda p: p)
+        nodes = [W.d('/h'), W.d(base), W.f('/v/keep', 'KEEP', 0o644, 800)] + K.sentinels('/v/out')
+        nodes += K.entry_nodes(K.KINDS[kind], base + '/x', 1000)
+        nodes += K.trashed(td, 'old1', pv(base + '/old1'), '2019-01-01T00:00:00', 'file', 2000)
+        nodes += K.trashed(td, 'old2', pv(base + '/old2'), '2019-01-02T00:00:00', 'dir', 2020)
+        nodes += [W.f(td + '/files/orphan', 'ORPHAN', 0o644, 2060)]
+        m = W.build_model(W.W(mounts=K.MOUNTS, cwd=base, nodes=nodes))
+        e = scen.env()
+        d = [1, 30][days]
+        ref = m.clone()
+        scen.run_model(None, [C('empty', [str(d)], e, now='2020-06-15T12:00:00', cwd=base)], model=ref)
+        before = ref.snap('/')
+        procs = [sched.Proc(C('empty', [str(d)], e, now='2020-06-15T12:00:00', cwd=base), 'empty'),
+                 sched.Proc(C('put', ['--', 'x'], e, now='2020-06-15T12:00:00', cwd=base), 'put')]
+        rt.begin(('put-during-empty-days', k, d, K.KINDS[kind], base))
+        sched.run_schedule(m, procs, [(0, k), (1, None)])
+        if len(procs[0].log) >= 150:
+            return rt.fail('C01:bound-too-small', 'trash-empty made %d system calls; preemption points only range over 0..149' % len(procs[0].log))
+        after = m.snap('/')
+        if procs[0].result['exc']:
+            return rt.fail('C01:traceback:%s:concurrent-empty' % procs[0].result['exc'].split(':')[0], procs[0].result['exc'])
+        return oracle([before, procs[1].result, after], 'x', base + '/x', 'entry', '%s:trash-put completes while trash-empty %d runs' % (K.KINDS[kind], d))
+
+
+def w_put_during_empty(k: int, kind: int, days: int, tdk: int) -> str:
+    """
+    pre: PARTITION is None or (days == PARTITION[0] and tdk == PARTITION[1])
+    pre: 0 <= k < 150 and 0 <= kind < 6 and 0 <= days < 2 and 0 <= tdk < 2
+    post: _ == ''
+    """
+    return _put_during_empty(rt.sel(k, 150), rt.sel(kind, 6), rt.sel(days, 2), rt.sel(tdk, 2))
+
+
 def w_spell(kind: int, sp: int, mode: int) -> str:
     """
     pre: PARTITION is None or kind == PARTITION
@@ -441,6 +483,10 @@ def obligations(tier):
                   bounds='6 kinds x 6 names containing % ( ) { } quotes newline x -v count 0..2 x 3 --trash-dir x 3 spellings'))
     obs.append(CH('W_home_directory_names', MOD, 'w_home', timeout=600, partitions=list(range(6)), engine='W', regime='selector', encodes=PUT_FUNCS, stubs=STUBS,
                   bounds='6 kinds x 4 $HOME values containing ( [ + backslash space $ * x 3 --trash-dir x 4 fallback switches x -v or not'))
+    obs.append(CH('W_put_completes_while_days_limited_empty_runs', MOD, 'w_put_during_empty', timeout=900, partitions=[(d, t) for d in range(2) for t in range(2)], engine='W', regime='selector',
+                  encodes=PUT_FUNCS + K_EMPTY, stubs=STUBS + ['replay-stepping scheduler (vf/sched.py)'],
+                  bounds='trash-empty DAYS (1 | 30), purging two old entries and an orphan, preempted after k system calls (k in 0..149, runs are shorter: checked) by a complete trash-put; 6 kinds x 2 trash directories',
+                  outside='plain trash-empty; more than one preemption'))
     obs.append(CH('W_only_child_of_its_directory', MOD, 'w_lonely', timeout=300, engine='W', regime='selector', encodes=PUT_FUNCS, stubs=STUBS,
                   bounds='the entry is the only child (or grandchild) of its directory x alone / followed by that directory as the next argument x 6 kinds x 3 spellings'))
     obs.append(CH('W_days_limited_empty_completes_while_put_runs', MOD, 'w_with_empty', timeout=900, partitions=[(d, t) for d in range(2) for t in range(3)], engine='W', regime='selector',
